@@ -14,6 +14,18 @@ CHECKS = [
         "note": "Trusts the terminal/graphics semantics encoded in vf/vt.py (ECMA-48, kitty, iTerm2; konsole/"
                 "wezterm quirks as the library documents them), Pillow and CPython.",
     },
+    {
+        "property_id": "C19",
+        "technique": "exhaustive enumeration of short strings + grammar-based Hypothesis generation against a reference recogniser",
+        "text": "All strings up to length 4 (quick) / 5 (thorough) over a 20-symbol alphabet of class representatives, "
+                "for each of the three style classes, are judged against a hand-written recursive-descent recogniser "
+                "of the documented grammar (acceptance set, error type, denoted values); generated full-length "
+                "sentences and one-edit near-sentences are additionally pushed through format(), ImageIterator() and "
+                "UrwidImage() (same accept/reject, no side effects on rejection) and format() is compared with draw() "
+                "called with the denoted explicit parameters. Exhaustive below the length bound, exploration above it.",
+        "note": "Trusts the reference recogniser's reading of docs/source/guide/formatting.rst and the style class "
+                "docstrings (z-index range per the normative rule, ASCII alphabet).",
+    },
 ]
 
 NOT_APPLICABLE = [
